@@ -4,8 +4,11 @@ package c2
 
 import (
 	"sort"
+	"strings"
 	"sync/atomic"
 
+	"github.com/PurpleSec/logx"
+	"github.com/iDigitalFlame/xmt/c2/cout"
 	"github.com/iDigitalFlame/xmt/com"
 	"github.com/iDigitalFlame/xmt/device"
 )
@@ -116,3 +119,35 @@ func VerifC14LockFree(s *Session) bool {
 
 // VerifC14Events is the number of Job.Update events queued so far.
 func VerifC14Events(s *Session) int { return s.m.count() }
+
+// ---- scheduling points (deterministic interleavings) ------------------------------------------
+//
+// The code logs through Session.log at two places that lie BETWEEN two critical sections of
+// Session.lock, on the calling goroutine and with no lock held:
+//   point 1: handle, Debug "Received response for Job" - after the read-locked lookup, before
+//            the write-locked finish;
+//   point 2: Task -> write -> queue, Trace "Adding Packet ... to queue" - after the read-locked
+//            duplicate check, before the write-locked insert.
+// verifC14Log forwards exactly these two calls to a hook of the harness, which may block there.
+type verifC14Log struct {
+	logx.Log
+	hook func(point int)
+}
+
+func (l *verifC14Log) Debug(m string, _ ...interface{}) {
+	if strings.Contains(m, "Received response for Job") {
+		l.hook(1)
+	}
+}
+func (l *verifC14Log) Trace(m string, _ ...interface{}) {
+	if strings.Contains(m, "to queue") {
+		l.hook(2)
+	}
+}
+
+// VerifC14SessionHooked is VerifC14Session with a logger that calls hook at the two points.
+func VerifC14SessionHooked(hook func(point int)) *Session {
+	s := VerifC14Session()
+	s.log = cout.New(&verifC14Log{Log: logx.NOP, hook: hook})
+	return s
+}
